@@ -5,6 +5,7 @@
 package framing
 
 import (
+	"bytes"
 	"encoding/binary"
 	"errors"
 	"io"
@@ -31,6 +32,19 @@ func message(k, total int, fill byte) []byte { return messageOf(k, total, fill, 
 // malformed: the item says it is a four-byte type (Integer, Enumeration, Interval) and announces another length: its extent on the
 // wire is still what the header announces
 func messageOf(k, total int, fill byte, malformed bool) []byte {
+	if !malformed && total >= 8200 && total <= 4<<20 {
+		// large messages are written by the library's own encoder, as a peer built on this library sends them (Stream.Send): a
+		// structure holding one byte string, total bytes on the wire
+		data := make([]byte, total-16)
+		for i := range data {
+			data[i] = fill
+		}
+		var buf bytes.Buffer
+		st := ttlv.NewStream(nopConn{&buf}, -1)
+		if err := st.Send(ttlv.Value{Tag: tagBase + k, Value: ttlv.Struct{{Tag: tagBase, Value: data}}}); err == nil {
+			return buf.Bytes() // (if its length is not `total`, the receiver's behaviour will not match the stream's parameters)
+		}
+	}
 	b := make([]byte, total)
 	tag := tagBase + k
 	b[0], b[1], b[2] = byte(tag>>16), byte(tag>>8), byte(tag)
@@ -48,6 +62,12 @@ func messageOf(k, total int, fill byte, malformed bool) []byte {
 	}
 	return b
 }
+
+type nopConn struct{ w *bytes.Buffer }
+
+func (c nopConn) Read(p []byte) (int, error)  { return 0, io.EOF }
+func (c nopConn) Write(p []byte) (int, error) { return c.w.Write(p) }
+func (c nopConn) Close() error                { return nil }
 
 type plan struct {
 	r      *rand.Rand
